@@ -266,14 +266,24 @@ def one_queue(ctx, he, rng, proto, mpm, n):
   bykey = {(dps[q][0], math.floor(dps[q][1])): q for q in range(n)}
   relcache = {}
   halfulp = {}
-  for cuts in cutsets:
-    run = wiresys.Run(he.wm, lproto)
+  for ci, cuts in enumerate(cutsets):
+    # a third of the deliveries: flow control pauses the receiving daemon while the k-th datapoint is handled (cache
+    # full) and resumes it after the read in progress - everything complete by then is ingested by then
+    pause_at = (ci % max(1, n)) + 1 if (ci % 3 == 1 and n) else 0
+    run = wiresys.Run(he.wm, lproto, flow=bool(pause_at))
+    if pause_at:
+      def pauser(m, dp, run=run, pause_at=pause_at):
+        if len(run.seen) == pause_at:
+          he.wm.events.pauseReceivingMetrics()
+      he.wm.events.metricReceived.addHandler(pauser)
     segs = []
     nseen = 0
     bounds = [0] + list(cuts) + [len(raw)]
     try:
       for a, b in zip(bounds[:-1], bounds[1:]):
         esc = run.feed(raw[a:b])
+        if pause_at and he.wm.state.metricReceiversPaused:
+          he.wm.events.resumeReceivingMetrics()
         new = run.seen[nseen:]
         dl = []
         for j, g in enumerate(new):
